@@ -143,7 +143,12 @@ def configs(tier):
     out = []
 
     def add(fn, key, **params):
-        out.append({"key": key, "fn": fn, "params": params, "options": {"sign": "stub"}})
+        cfg = {"key": key, "fn": fn, "params": params, "options": {"sign": "stub"}}
+        if tier == "thorough":
+            # the larger complex shapes can sit in one solver call for a long time: decided within 5 minutes or reported INCONCLUSIVE
+            cfg["options"]["budget_s"] = 300
+            cfg["hard_timeout_s"] = 700
+        out.append(cfg)
 
     shapes = [(4, 2, 2), (3, 3, 2), (4, 1, 1), (4, 3, 1)] if tier == "quick" else [(4, 2, 2), (3, 3, 2), (4, 1, 1), (4, 3, 1), (5, 3, 3), (3, 4, 3), (6, 2, 2)]
     for cls in ("EOF", "ComplexEOF"):
